@@ -95,11 +95,14 @@ pub fn decode_body(bytes: Vec<u8>, content_encoding: Option<&str>) -> Result<Str
             Err(io::Error::new(io::ErrorKind::InvalidData, err).into())
         } else {
             Ok(match decoded {
-                // If encoding_rs returned a `Cow::Borrowed`, the bytes are guaranteed to be valid
-                // UTF-8, by virtue of being UTF-8 or being in the subset of ASCII that is the same
-                // in UTF-8.
-                Cow::Borrowed(_) => unsafe { String::from_utf8_unchecked(bytes) },
-                Cow::Owned(string) => string,
+                // If encoding_rs returned a `Cow::Borrowed` of the whole input, the bytes are
+                // guaranteed to be valid UTF-8, by virtue of being UTF-8 or being in the subset
+                // of ASCII that is the same in UTF-8, and can be reused without a copy.
+                Cow::Borrowed(s) if s.len() == bytes.len() => unsafe {
+                    String::from_utf8_unchecked(bytes)
+                },
+                // A shorter borrow is the input without its byte order mark.
+                decoded => decoded.into_owned(),
             })
         }
     } else {
